@@ -156,7 +156,8 @@ def widthFn (ng : Nat) (w : List (Nat × Nat)) : Nat → Int :=
 
 structure TextCase where
   fixed : Bool
-  hasGsub : Bool      -- the file has its own GSUB table (not modelled: must be false)
+  hasGsub : Bool      -- the file has its own (empty) GSUB table: nothing is synthesised
+  hasGpos : Bool      -- the file has its own (empty) GPOS table: the kern table is not even read
   kern : Option Bytes
   cm : List (Nat × Nat)      -- rune → gid (the real cmap's answers for all runes involved)
   widths : List (Nat × Nat)  -- gid → advance (as uint16 pattern of funit.Int16), absent = out of range
@@ -175,7 +176,8 @@ def parseText (fs : List (String × String)) : Option TextCase := do
   let psw ← (getField fs "psw").bind parseSw
   let text ← (getField fs "text").bind (natList ",")
   let ng ← (getField fs "ng").bind String.toNat?
-  pure ⟨fixed == "1", false, kern, cm, w, gsw, psw, text, ng⟩
+  let vs := ((getField fs "var").getD "-").splitOn "+"
+  pure ⟨fixed == "1", vs.contains "gsub", vs.contains "gpos", kern, cm, w, gsw, psw, text, ng⟩
 
 /-- the model of `sfnt.Read` (GSUB/GPOS synthesis) + `NewLayouter` + `Layout` for a font file without
 GSUB, GPOS and GDEF tables.  The matcher is irrelevant: both synthesised script lists have one entry. -/
@@ -183,7 +185,7 @@ def runText (c : TextCase) : String :=
   let cmap : Nat → Nat := fun r => (lookupNat c.cm r).getD 0
   let m := constMatcher 0
   let gsub : Option (List Glyph → List Glyph) :=
-    if c.fixed then none else
+    if c.hasGsub || c.fixed then none else
     match standardLigatures cmap with
     | none => none
     | some t =>
@@ -191,7 +193,7 @@ def runText (c : TextCase) : String :=
         (switchFn (effective Gen.gsubDefaultFeatures c.gsw))
       some fun seq => if ll.contains 0 then applyLig t seq.length seq else seq
   let gposE : Except KErr (Option (List Glyph → List Glyph)) :=
-    match c.kern with
+    match (if c.hasGpos then none else c.kern) with
     | none => .ok none
     | some b =>
       match kernRead b with
@@ -313,6 +315,18 @@ def handle (op : String) (fs : List (String × String)) : String :=
     | none => "bad-case"
   else if op == "layout.pipeline" then
     (runPipeline fs).getD "bad-case"
+  else if op == "layout.ligd" then
+    -- D: proportional (by widths) ∧ no GSUB ∧ liga enabled ⇒ the standard ligatures whose glyphs are
+    -- mapped are applied, longest first: glyph ids and texts of the real output must be those of
+    -- `applyLig (ligTable cmap)` on the cmap-mapped text
+    match (getField fs "map").bind parseNatMap, (getField fs "text").bind (natList ","),
+          (getField fs "got").bind parseGlyphs with
+    | some cm, some text, some got =>
+      let cmap : Nat → Nat := fun r => (lookupNat cm r).getD 0
+      let seq0 : List Glyph := text.map fun r => ⟨cmap r, [r], 0⟩
+      let want := applyLig (ligTable cmap) seq0.length seq0
+      if want.map (fun g => (g.gid, g.text)) == got.map (fun g => (g.gid, g.text)) then "ok" else "bad"
+    | _, _, _ => "bad-case"
   else if op == "layout.trivial" then
     match (getField fs "map").bind parseNatMap, (getField fs "w").bind parseNatMap,
           (getField fs "text").bind (natList ","), (getField fs "got").bind parseGlyphs,
